@@ -17,10 +17,10 @@ class CallGraph:
             caller = root_fn(c["f"])
             tgt = c["inst"] or c["callee"]
             targets = []
-            if c["virt"] or (tgt not in known and c["callee"] in impls):
+            # class-hierarchy expansion only for dynamic calls and calls left unresolved (generic receiver);
+            # a call resolved to a concrete (possibly foreign) impl goes to that impl only
+            if c["virt"] or ((not c["inst"] or c["inst"] == c["callee"]) and c["callee"] in impls and tgt not in known):
                 targets = list(impls.get(c["callee"], []))
-                if not c["virt"] and c["inst"] and c["inst"] in known:
-                    targets = [c["inst"]]
             if not targets:
                 targets = [tgt]
             for t in targets:
